@@ -2,8 +2,8 @@
 import os
 import vlib
 
-QUICK = ["MC_Resolver_c11_quick_a.cfg", "MC_Resolver_c11_quick_chain.cfg"]
-THOROUGH = QUICK + ["MC_Resolver_c11_thorough_chain.cfg", "MC_Resolver_c11_thorough_b.cfg"]
+QUICK = ["MC_Resolver_c11_quick_a.cfg", "MC_Resolver_c11_quick_chain.cfg", "MC_Resolver_c11_thorough_chain.cfg"]
+THOROUGH = QUICK + ["MC_Resolver_c11_thorough_b.cfg"]
 
 
 def run(ctx):
@@ -20,6 +20,13 @@ def run(ctx):
     res = ctx.drv("resolver-replay", infile=cases, outfile=mm, args={"tries": 64, "reps": 12 if ctx.tier == "quick" else 40})
     if res["cases"] != total:
         raise vlib.Infra("harness replayed %d of %d cases" % (res["cases"], total))
+    # every command that resolves the book honours the limit alike: chains around every limit 1..12 and all small books,
+    # written as files and run through the nine resolving command shapes with --maxdepth N
+    from props import common
+    common.replay_layer(ctx, "MC_Resolver.tla", "MC_Resolver_c11_thorough_chain.cfg", "book-reports-replay", "chaincmds", args={"stride": 3 if ctx.tier == "quick" else 1, "allcmds": 1},
+                        workers=8, shape_filter=lambda sh: sh in ("resolver-status", "cli-panic", "report-fails"))
+    common.replay_layer(ctx, "MC_Resolver.tla", "MC_Resolver_c11_quick_a.cfg", "book-reports-replay", "bookcmds", args={"stride": 25 if ctx.tier == "quick" else 4, "allcmds": 1},
+                        workers=8, shape_filter=lambda sh: sh in ("resolver-status", "cli-panic", "report-fails"))
     # direction (b): executions of the real resolver on random books far beyond the exhaustive bound,
     # recorded (Init, Visit*, Exit) and validated by TLC against Trace_Resolver.tla
     tr = os.path.join(ctx.scratch, "resolver_trace.ndjson")
